@@ -238,6 +238,10 @@ class TreeFn(Generic[_FnT, _T]):
     """Iterates through the input_iterator and calls the function."""
     fn_inputs = map(self._get_inputs, input_iterator)
     if self.fn_batch_size:
+      if ignore_error:
+        # The rebatching generator ends with the first error passing through it,
+        # the failing inputs have to be skipped before they reach it.
+        fn_inputs = iter_utils.iter_ignore_error(fn_inputs)
       fn_inputs = iter_utils.rebatched_args(
           fn_inputs,
           batch_size=self.fn_batch_size,
